@@ -54,29 +54,35 @@ Record flags := { f_fall : bool;       (* d8b1d2a4 *)
                   f_mdq : bool;        (* 254349bd *)
                   f_inline : bool;     (* a8da97db *)
                   f_group : bool;      (* ab8ae013 *)
-                  (* NOT a code version but the process ENVIRONMENT: the daylight-saving gaps of the process time
-                     zone, as (start, length, shift) over "UTC broken-down time read as local wall-clock time":
-                     an instant t with start <= t < start + length does not exist as local time, and libc's
-                     localtime(mktime(t, isdst=-1)) answers t + shift.  [] = a zone without such gaps in the
-                     period (UTC, any fixed offset).  Data of the case, measured through libc by the harness. *)
-                  f_gaps : list (Z * Z * Z) }.
+                  (* 7137d601 (add_duration normalised through the local calendar).  None = the code now: the
+                     expiration date of an MDQ entry is computed in UTC and no property of the process time zone
+                     enters.  Some gaps = before the commit, in a process whose zone has the given daylight-saving
+                     gaps, as (start, length, shift) over "UTC broken-down time read as local wall-clock time": an
+                     instant t with start <= t < start + length does not exist as local time, and libc's
+                     localtime(mktime(t, isdst=-1)) answers t + shift ([] = UTC, any fixed offset).  The table is
+                     data of the case, measured through libc by the harness. *)
+                  f_zone : option (list (Z * Z * Z)) }.
 Definition cur : flags :=
   {| f_fall := false; f_last := false; f_unsigned := false; f_mdq := false; f_inline := false; f_group := false;
-     f_gaps := [] |}.
+     f_zone := None |}.
 Definition v0 : flags :=
   {| f_fall := true; f_last := true; f_unsigned := true; f_mdq := true; f_inline := true; f_group := true;
-     f_gaps := [] |}.
-(* the code as it is now, in a process whose time zone has the given daylight-saving gaps *)
-Definition in_zone (g : list (Z * Z * Z)) : flags :=
+     f_zone := Some [] |}.
+(* only 7137d601 reverted: the code before it, in a process whose time zone has the given daylight-saving gaps *)
+Definition zone_v0 (g : list (Z * Z * Z)) : flags :=
   {| f_fall := false; f_last := false; f_unsigned := false; f_mdq := false; f_inline := false; f_group := false;
-     f_gaps := g |}.
-(* time_util.add_duration ends with time.localtime(time.mktime((y, m, d, H, M, S, 0, 0, -1))): the broken-down UTC
-   time it has computed goes through the LOCAL calendar and back, which is the identity except inside a gap *)
+     f_zone := Some g |}.
+(* before 7137d601 time_util.add_duration ended with time.localtime(time.mktime((y, m, d, H, M, S, 0, 0, -1))): the
+   broken-down UTC time it had computed went through the LOCAL calendar and back, which is the identity except inside
+   a gap; now it ends with time.gmtime(calendar.timegm(...)), the identity everywhere *)
 Fixpoint zone_fix (gaps : list (Z * Z * Z)) (t : Z) : Z :=
   match gaps with
   | [] => t
   | (a, len, sh) :: r => if ((a <=? t) && (t <? a + len))%Z then (t + sh)%Z else zone_fix r t
   end.
+(* MetaDataMDX.expiration_date[item] = add_duration(now, freshness_period) *)
+Definition expiry (fl : flags) (now period : Z) : Z :=
+  match f_zone fl with Some g => zone_fix g (now + period) | None => (now + period)%Z end.
 
 (* ---------------------------------------------------------------- abstract documents *)
 Record svc := Svc { s_name : string; s_binding : string; s_loc : string; s_index : option string }.
@@ -287,7 +293,7 @@ Definition mdx_fetch_v0 (fl : flags) (x : mdx) (now : Z) (srv : server) (e : str
       | Some m =>
           let x1 := {| x_ents := m; x_exp := x_exp x; x_cert := x_cert x; x_period := x_period x |} in
           if sig_gate fl (x_cert x) KMdq (Some false) p sg then
-            let x2 := {| x_ents := m; x_exp := upsert e (zone_fix (f_gaps fl) (now + x_period x)) (x_exp x);
+            let x2 := {| x_ents := m; x_exp := upsert e (expiry fl now (x_period x)) (x_exp x);
                          x_cert := x_cert x; x_period := x_period x |} in
             match lookup e m with
             | Some en => (x2, ROk en)
@@ -310,7 +316,7 @@ Definition mdx_fetch (fl : flags) (x : mdx) (now : Z) (srv : server) (e : string
                     else RKeyErr)
       | Some m =>
           if sig_gate fl (x_cert x) KMdq (Some false) p sg then
-            let ex := upsert e (zone_fix (f_gaps fl) (now + x_period x)) (x_exp x) in
+            let ex := upsert e (expiry fl now (x_period x)) (x_exp x) in
             match lookup e m with
             | Some en => ({| x_ents := upsert e en (x_ents x); x_exp := ex; x_cert := x_cert x; x_period := x_period x |}, ROk en)
             | None => ({| x_ents := x_ents x; x_exp := ex; x_cert := x_cert x; x_period := x_period x |}, RKeyErr)
